@@ -43,8 +43,15 @@ def main():
             c1 = run(["/venv/bin/python", str(d / "demo.py")], env=env1, timeout=300).returncode
             det = {}
             for chk in checks:
-                r = run(["./check", chk], cwd=ROOT, env=dict(os.environ, ANYIO_REPO=str(scratch), VERIF_SEED="0"),
-                        timeout=1200)
+                try:
+                    r = run(["./check", chk], cwd=ROOT, env=dict(os.environ, ANYIO_REPO=str(scratch), VERIF_SEED="0"),
+                            timeout=1500)
+                except subprocess.TimeoutExpired:
+                    det[chk] = "TIMEOUT (no verdict)"
+                    continue
+                if r.returncode == 2 and not any(l.startswith("VIOLATION") for l in r.stdout.splitlines()):
+                    det[chk] = "no verdict (exit 2)"
+                    continue
                 lines = [l for l in r.stdout.splitlines() if l.startswith("VIOLATION")]
                 if lines:
                     kind = "correspondence only (no-failing-input-found)" if all(
